@@ -308,7 +308,7 @@ def find_path(src, path):
     toks = tokenize(src)
     lo, hi = 0, len(toks)
     item = None
-    for seg in path:
+    for seg_i, seg in enumerate(path):
         seg = seg.strip()
         m_ = re.match(r'[a-z_]+', seg)
         kind = m_.group(0) if m_ else seg
@@ -330,6 +330,23 @@ def find_path(src, path):
                     cands.append(it)
         if len(cands) == 0:
             raise AnchorError('anchor not found: %r in path %r' % (seg, path))
+        if len(cands) > 1 and seg_i + 1 < len(path):
+            # several blocks with the same header (e.g. two `impl Store {`): keep those containing the next segment
+            nxt = path[seg_i + 1].strip()
+            m2 = re.match(r'[a-z_]+', nxt)
+            nkind = m2.group(0) if m2 else nxt
+            nrest = nxt[len(nkind):].strip()
+            keep = []
+            for c in cands:
+                if c.body_open is None:
+                    continue
+                for it in items_in(toks, c.body_open + 1, c.end_tok):
+                    if it.kind == nkind and ((nkind == 'impl' and it.header == norm(nxt)) or (nkind != 'impl' and it.name == nrest)):
+                        keep.append(c)
+                        break
+            cands = keep
+            if len(cands) == 0:
+                raise AnchorError('anchor not found: %r in any %r of path %r' % (nxt, seg, path))
         if len(cands) > 1:
             # allow cfg(test) duplicates? no: ambiguous
             raise AnchorError('anchor ambiguous (%d matches): %r in path %r' % (len(cands), seg, path))
